@@ -501,7 +501,7 @@ def cid(name):
 class Emitter:
     def __init__(s, m, stubs, overrides, nsw_checks=False, prefix='', keep=()):
         s.m = m; s.stubs = set(stubs); s.overrides = overrides; s.lit = {}; s.out = []; s.nsw = nsw_checks
-        s.prefix = prefix; s.keep = set(keep); s.env_tables = {}
+        s.prefix = prefix; s.keep = set(keep); s.env_tables = {}; s.def_rename = {}
         s.used_types = []; s.seen_named = set()
 
     def gname(s, name):
@@ -751,7 +751,10 @@ class Emitter:
         elif v.kind == 'agg':
             for x in v.els: yield from s.regs_in(x)
 
-    def proto(s, fn):
+    def proto(s, fn, defining=False):
+        if defining and fn.name in s.def_rename:
+            ps0 = ', '.join(s.cdecl(t, 'v_' + cid(n)) if n else s.cdecl(t, 'v_%d' % i) for i, (t, n) in enumerate(fn.params)) or 'void'
+            return s.cdecl(fn.ret, '%s(%s)' % (s.def_rename[fn.name], ps0))
         ps = ', '.join(s.cdecl(t, 'v_' + cid(n)) if n else s.cdecl(t, 'v_%d' % i) for i, (t, n) in enumerate(fn.params)) or 'void'
         if fn.va: ps += ', ...'
         return s.cdecl(fn.ret, '%s(%s)' % (s.gname(fn.name), ps))
@@ -789,7 +792,7 @@ class Emitter:
         s._defs = {ins.res: ins for b in fn.blocks for ins in b.ins if ins.res}
         s._fn = fn
         o = []
-        o.append(s.proto(fn) + '\n{')
+        o.append(s.proto(fn, True) + '\n{')
         # declare regs
         decls = {}
         labels = {b.label for b in fn.blocks}
@@ -1063,6 +1066,12 @@ class Emitter:
                             cnt = args[2].val // w; ct = s.cdecl(s.resolve(dt.to))
                             return '{ %s ll2c_tmp[%d]; %s *ll2c_s = %s; %s *ll2c_d = %s; %s %s }' % (ct, cnt, ct, s.val(sv), ct, s.val(d),
                                    ' '.join('ll2c_tmp[%d] = ll2c_s[%d];' % (k, k) for k in range(cnt)), ' '.join('ll2c_d[%d] = ll2c_tmp[%d];' % (k, k) for k in range(cnt)))
+                    # variable-length copy between typed integer arrays (e.g. the PV copy of add_new_move_to_pv_list): an element loop on
+                    # typed pointers instead of CBMC's byte-wise memmove over the enclosing (large) object; memcpy only (no overlap)
+                    if n.startswith('llvm.memcpy') and args[2].kind != 'int' and isinstance(dt, TPtr) and isinstance(stt, TPtr) and isinstance(s.resolve(dt.to), TInt) and repr(s.resolve(dt.to)) == repr(s.resolve(stt.to)):
+                        w = max(1, s.resolve(dt.to).n // 8); ct = s.cdecl(s.resolve(dt.to))
+                        return ('{ %s *ll2c_d = %s; %s *ll2c_s = %s; uint64_t ll2c_n = (uint64_t)%s; LL2C_ASSUME_OR_ASSERT(ll2c_n %% %d == 0); '
+                                'for (uint64_t ll2c_k = 0; ll2c_k < ll2c_n / %d; ll2c_k++) ll2c_d[ll2c_k] = ll2c_s[ll2c_k]; }' % (ct, s.val(d), ct, s.val(sv), A[2], w, w))
                     return 'memmove(%s, %s, %s);' % (A[0], A[1], A[2])
                 if n.startswith('llvm.memset'): return 'LL2C_MEMSET(%s, %s, %s);' % (A[0], A[1], A[2])
                 for nm in ('umin', 'umax'):
